@@ -342,7 +342,7 @@ PROPS["C20"] = dict(
         H("c20_toggle64_scalar", timeout=600, unwindset=U20, bounds="all (carry, mask)"),
         H("c20_toggle64_bmi2", timeout=600, unwindset=U20, bounds="all (carry, mask), PDEP model"),
         H("c20_prefix_xor", timeout=300, bounds="all x:u64"),
-        H("c20_index_rank_select_70", timeout=1800, unwindset=U20, bounds="rank/select of the built index vs bit counting, 70 bytes"),
+        H("c20_index_rank_select_70", timeout=2700, unwindset=U20, tier="thorough", bounds="rank/select of the built index vs bit counting, 70 bytes"),
         H("c20_witness_must_fail", kind="witness", tier="thorough", timeout=300),
     ],
 )
